@@ -36,9 +36,12 @@ def body(rng, depth, headers, here, budget, allow_include=True, dangling=None, u
         if r < 0.4:
             out.append(f"int v{rng.randint(0, 9)};")
         elif r < 0.5:
-            out.append(rng.choice(["// comment", "/* c */", "", "int w; // t", "int k = 1 + \\", "  2;"]))
-            if out[-1].endswith("\\"):
-                out.append("  3;")
+            c = rng.choice([["// comment"], ["/* c */"], [""], ["int w; // t"], ["int k = 1 + \\", "  3;"], ["  2;"],
+                            # logical lines that contain physical lines without code: a comment that starts on a code line and
+                            # runs on, a comment closed in front of code, a continuation line that holds only the backslash
+                            ["int c1; /* starts here", "   goes on", "   ends */"], ["/* closed in front of code", "*/ int c2;"],
+                            ["int c3 = 1 + \\", "\\", "  2;"], ["int c4; /* a", "b */ int c5; /* c", "d */"]])
+            out += c
         elif r < 0.6:
             n = rng.choice(NAMES)
             out.append(f"#define {n} {rng.randint(0, 2)}" if rng.random() < 0.6 else f"#undef {n}")
